@@ -102,6 +102,14 @@ func NewBatchSpanProcessor(exporter SpanExporter, options ...BatchSpanProcessorO
 	for _, opt := range options {
 		opt(&o)
 	}
+	// Negative sizes (from options or the environment) are meaningless and
+	// would make the allocations below panic: fall back to the defaults.
+	if o.MaxQueueSize < 0 {
+		o.MaxQueueSize = DefaultMaxQueueSize
+	}
+	if o.MaxExportBatchSize < 0 {
+		o.MaxExportBatchSize = DefaultMaxExportBatchSize
+	}
 	bsp := &batchSpanProcessor{
 		e:      exporter,
 		o:      o,
